@@ -110,6 +110,38 @@ REFACTORINGS = [
     ('tear-down-in-reverse-set-up-order', 'C01 C04 C16',
      [(R, "    unneeded = order_by_bases(unneeded)\n    unneeded.reverse()",
        "    unneeded = [ly for ly in reversed(list(setup_layers)) if ly in unneeded]", 1)]),
+    ('stale-bytecode-collected-per-directory', 'C15',
+     [('src/zope/testrunner/find.py',
+       "            for file in files:\n"
+       "                if file[-4:] in compiled_suffixes and file[:-1] not in files:\n"
+       "                    fullname = os.path.join(dirname, file)\n"
+       "                    options.output.info(\"Removing stale bytecode file %s\"\n"
+       "                                        % fullname)\n"
+       "                    os.unlink(fullname)\n",
+       "            stale = [os.path.join(dirname, file) for file in files\n"
+       "                     if file[-4:] in compiled_suffixes\n"
+       "                     and file[:-1] not in files]\n"
+       "            for fullname in stale:\n"
+       "                options.output.info(\"Removing stale bytecode file %s\"\n"
+       "                                    % fullname)\n"
+       "                os.unlink(fullname)\n", 1)]),
+    ('argv-copied-with-list', 'C03',
+     [(R, "            self.args = sys.argv[:]", "            self.args = list(sys.argv)", 1)]),
+    ('shuffle-rng-seeded-after-construction', 'C11',
+     [(SH, "        rng = random.Random(self.seed)",
+       "        rng = random.Random()\n        rng.seed(self.seed)", 1)]),
+    ('coverage-previous-tracer-in-two-attributes', 'C18',
+     [('src/zope/testrunner/coverage.py',
+       "            previous, previous_threading = self._previous\n",
+       "            previous = self._previous[0]\n"
+       "            previous_threading = self._previous[1]\n", 1)]),
+    ('worker-reports-under-a-lock', 'C18 C07 C06',
+     [(R, "def spawn_layer_in_subprocess(result, script_parts, options, features,\n",
+       "_report_lock = threading.Lock()\n\n\n"
+       "def spawn_layer_in_subprocess(result, script_parts, options, features,\n", 1),
+      (R, "            output.error_with_banner(errmsg)\n",
+       "            with _report_lock:\n"
+       "                output.error_with_banner(errmsg)\n", 1)]),
     ('summary-wording-untouched-but-helper-extracted', 'C12 C04 C02',
      [(R, "    # Return the total number of tests run.\n    return sum(r.num_ran for r in results)",
        "    # Return the total number of tests run.\n    total = 0\n"
